@@ -146,6 +146,9 @@ func kvAlphabet(tier string) []kvOp {
 		kvOp{Put: true, Keys: []uint64{514, 513}, Tags: []byte{4, 4}},
 		kvOp{Put: true, Keys: []uint64{513, 514, kvsSize - 1}, Tags: []byte{5, 5, 5}},
 		kvOp{Put: true, Keys: []uint64{513, 513}, Tags: []byte{6, 7}}, // repeated key: later pair wins
+		// fourteen pairs, one key twice (first and last / in the middle): the later pair wins whatever the put does with the order
+		kvOp{Put: true, Keys: []uint64{513, 530, 529, 528, 527, 526, 525, 524, 523, 522, 521, 520, 514, 513}, Tags: []byte{12, 1, 1, 1, 1, 1, 1, 1, 1, 1, 1, 1, 1, 13}},
+		kvOp{Put: true, Keys: []uint64{520, 521, 522, 523, 514, 524, 525, 526, 514, 527, 528, 529, 530, 531, 532, 533}, Tags: []byte{1, 1, 1, 1, 14, 1, 1, 1, 15, 1, 1, 1, 1, 1, 1, 1}},
 		kvOp{Put: true, Big: 6, Tags: []byte{8}},
 		kvOp{Put: true, Big: 300, Tags: []byte{9}},
 		kvOp{Put: true, Big: 511, Tags: []byte{10}},
@@ -570,7 +573,7 @@ func C18(r *report.Report, tier string) {
 	if tier == "thorough" {
 		depth, crashDepth, bound = 3, 3, 3
 	}
-	r.Rule = fmt.Sprintf("sequential: every sequence of <=%d operations over a %d-symbol alphabet of multi-puts (1..3 keys, repeated key, 10/300/511/512 keys) and gets at the key-range boundaries, each reply and the final state against a map; crash: every crash image (cut x loss of un-barriered writes, nested crash in recovery) of every put-only history of depth <=%d, recovered with the real MkKVS under two recovery schedules, must equal the map after a prefix that contains every returned put; concurrent: all schedules with <=%d preemptions of 3-client harnesses, brute-force linearizability; concurrent + crash: for every schedule (one deviation less, no state caching) of four 2-client harnesses (put against an oversized put that fails, against gets, against an overlapping put, puts that re-write current values) every crash image of the recorded trace, at every cut at which it is possible: the puts acknowledged before the cut, any subset of the pending ones and the recovered store must be linearizable (gets are left out: a get may see a put that is not durable yet). distinct_nontrivial counts distinct crash images with a lost pending write or a non-empty on-disk log.", depth, len(al), crashDepth, bound)
+	r.Rule = fmt.Sprintf("sequential: every sequence of <=%d operations over a %d-symbol alphabet of multi-puts (1..3 keys, repeated key also among 14 and 16 pairs, 6/300/511/512 keys) and gets at the key-range boundaries, each reply and the final state against a map; crash: every crash image (cut x loss of un-barriered writes, nested crash in recovery) of every put-only history of depth <=%d, recovered with the real MkKVS under two recovery schedules, must equal the map after a prefix that contains every returned put; concurrent: all schedules with <=%d preemptions of 3-client harnesses, brute-force linearizability; concurrent + crash: for every schedule (one deviation less, no state caching) of four 2-client harnesses (put against an oversized put that fails, against gets, against an overlapping put, puts that re-write current values) every crash image of the recorded trace, at every cut at which it is possible: the puts acknowledged before the cut, any subset of the pending ones and the recovered store must be linearizable (gets are left out: a get may see a put that is not durable yet). distinct_nontrivial counts distinct crash images with a lost pending write or a non-empty on-disk log.", depth, len(al), crashDepth, bound)
 	// sequences
 	var jobs []interface{}
 	var rec func(prefix []kvOp, d int)
@@ -586,7 +589,7 @@ func C18(r *report.Report, tier string) {
 			// a crash job subsumes the sequential one; histories ending in a get add nothing to crash exploration
 			big := 0
 			for _, o := range prefix {
-				if o.Big >= 300 {
+				if o.Big >= 300 || len(o.Keys) >= 10 {
 					big++
 				}
 			}
